@@ -107,7 +107,7 @@ def run(rep, tier, seed, replay_file=None):
     with bc.phase(rep, "schedule-execution"):
         hists = bc.run_schedules(rep, binary, scheds, 12, seed, "broker/sched") if scheds else []
     with bc.phase(rep, "recorder"):
-        rec = bc.record(rep, binary, 480 if quick else 4000, seed)
+        rec = bc.record(rep, binary, 400 if quick else 4000, seed)
     if not rec:
         rep.infra_error("recorder produced no history")
     if hists or rec:
